@@ -244,6 +244,101 @@ func main() {
 			}
 		})
 
+		// The caller's continuation handler fails on a continuation frame (the final one, or an
+		// earlier one); the caller puts up with it, discards what is left of the message and reads
+		// on. The fragmentation state is the stream's, not the handler's: after a final
+		// continuation a new data frame is accepted and a stray continuation refused; after a
+		// non-final one it is the other way round.
+		r.Part("E3b-continuation-handler-error-does-not-change-the-state", func(t *explore.T) {
+			errHandler := fmt.Errorf("continuation handler says no")
+			for _, side := range []streams.Side{streams.Server, streams.Client} {
+				for _, failOnFinal := range []bool{true, false} {
+					for _, nextOp := range []byte{0, 1, 2} {
+						for _, consume := range []string{"Discard", "Read"} {
+							side, failOnFinal, nextOp, consume := side, failOnFinal, nextOp, consume
+							t.Do(func() string {
+								return fmt.Sprintf("%s Text-(a) Cont(b, fin=%v) with the continuation handler failing there; caller %ss on; next frame op%x", side, failOnFinal, consume, nextOp)
+							}, func() *explore.Fail {
+								mk := func(o byte, fin bool, p []byte) []byte {
+									return refmodel.Frame{H: refmodel.Hdr{Fin: fin, Op: o, Masked: side == streams.Server, Mask: [4]byte{4, 3, 2, 1}}, Payload: p}.Wire()
+								}
+								// (Discard gives up its position inside the frame when the handler fails, so the
+								// stream stays in sync only if that frame has no payload; Read keeps it)
+								contPayload := []byte("b")
+								if consume == "Discard" {
+									contPayload = nil
+								}
+								data := append(mk(1, false, []byte("a")), mk(0, failOnFinal, contPayload)...)
+								data = append(data, mk(nextOp, true, marker[:8])...)
+								data = append(data, canary(side)...)
+								rd := &wsutil.Reader{Source: env.NewSrc(data), State: drivers.State(side)}
+								fired := false
+								rd.OnContinuation = func(h ws.Header, r io.Reader) error {
+									if !fired {
+										fired = true
+										return errHandler
+									}
+									return nil
+								}
+								if _, err := rd.NextFrame(); err != nil {
+									return explore.Failf("harness-first-frame", "%v", err)
+								}
+								var lastErr error
+								var got []byte
+								for i := 0; i < 6; i++ {
+									var err error
+									if consume == "Discard" {
+										err = rd.Discard()
+									} else {
+										var p []byte
+										p, err = io.ReadAll(rd)
+										if i > 0 {
+											got = append(got, p...)
+										}
+									}
+									lastErr = err
+									if err == errHandler {
+										continue
+									}
+									break
+								}
+								if !fired {
+									return explore.Failf("harness-handler-not-called", "")
+								}
+								// the first message is over (failOnFinal) or still open (!failOnFinal); now the next frame
+								wantOK := (failOnFinal && nextOp != 0) || (!failOnFinal && nextOp == 0)
+								if lastErr == nil {
+									h, err := rd.NextFrame()
+									lastErr = err
+									if err == nil {
+										p, e := io.ReadAll(rd)
+										got = append(got, p...)
+										lastErr = e
+										_ = h
+									}
+								}
+								if wantOK {
+									if lastErr != nil {
+										return explore.Failf("valid-frame-refused-after-continuation-handler-error", "next frame op%x after fin=%v: %v", nextOp, failOnFinal, lastErr)
+									}
+									t.Outcome("accepted")
+									return nil
+								}
+								if hasTaint(got) {
+									return explore.Failf("offender-delivered-after-continuation-handler-error", "data %q err=%v", got, lastErr)
+								}
+								if _, ok := lastErr.(ws.ProtocolError); !ok {
+									return explore.Failf("offender-not-rejected-after-continuation-handler-error", "next frame op%x after fin=%v: err=%v", nextOp, failOnFinal, lastErr)
+								}
+								t.Outcome("rejected")
+								return nil
+							})
+						}
+					}
+				}
+			}
+		})
+
 		r.Part("E2b-size-limit-control-frames", func(t *explore.T) {
 			for _, side := range []streams.Side{streams.Server, streams.Client} {
 				for _, inMsg := range []bool{false, true} {
